@@ -189,9 +189,28 @@ def run_pyvc(cfg, rep, tier):
             tasks.append((modnames, k, case, timeout_ms, expected_headers))
     results = []
     t0 = time.time()
-    with ProcessPoolExecutor(NPROC) as ex:
-        for r in ex.map(_w_sym, tasks, chunksize=1):
+    # every case has its own wall-clock budget inside the worker (api.run_sym); a worker that still does not come back (a solver
+    # call that ignores its time-out on changed code) is given up after twice that budget and its case is undecided
+    case_limit = 2 * (240.0 if timeout_ms <= 150000 else 960.0) + 60
+    ex = ProcessPoolExecutor(NPROC)
+    try:
+        futs = [ex.submit(_w_sym, t) for t in tasks]
+        t_pool = time.time()
+        for t, f in zip(tasks, futs):
+            try:
+                r = f.result(timeout=max(5.0, case_limit + 30 * len(tasks) / max(1, NPROC) - (time.time() - t_pool)))
+            except Exception as e:          # concurrent.futures.TimeoutError (or a broken pool)
+                r = dict(key=t[1], case=t[2], obligs=[], undecided=["the worker for this case did not come back within its time limit (%s)" % type(e).__name__],
+                         paths=0, completed=0, cover_ok=True, secs=0, functions={}, facts=0, lemmas=[], crash=None, loop_headers={})
             results.append(r)
+    finally:
+        for p_ in list(getattr(ex, "_processes", {}).values()):
+            try:
+                if p_.is_alive():
+                    p_.kill()
+            except Exception:
+                pass
+        ex.shutdown(wait=False, cancel_futures=True)
     # cases with undecided obligations are re-run alone with a larger budget (verdicts must not
     # depend on how busy the 16 cores were)
     rerun_spent = 0.0
@@ -203,8 +222,19 @@ def run_pyvc(cfg, rep, tier):
             if rerun_spent > 300 or any(o["status"] == "refuted" for o in r["obligs"]) or any("time budget" in u for u in r["undecided"]):
                 continue
             t_r = time.time()
-            with ProcessPoolExecutor(1) as ex1:
-                r2 = list(ex1.map(_w_sym, [(modnames, r["key"], r["case"], timeout_ms * 5, expected_headers)]))[0]
+            ex1 = ProcessPoolExecutor(1)
+            try:
+                r2 = ex1.submit(_w_sym, (modnames, r["key"], r["case"], timeout_ms * 5, expected_headers)).result(timeout=case_limit)
+            except Exception:
+                r2 = dict(crash="second run did not come back")
+            finally:
+                for p_ in list(getattr(ex1, "_processes", {}).values()):
+                    try:
+                        if p_.is_alive():
+                            p_.kill()
+                    except Exception:
+                        pass
+                ex1.shutdown(wait=False, cancel_futures=True)
             rerun_spent += time.time() - t_r
             if r2["crash"] is None:
                 r2["secs"] += r["secs"]
